@@ -1,5 +1,7 @@
 use itertools::Itertools;
-use kanata_keyberon::chord::{ChordV2, ChordsForKey, ChordsForKeys, ReleaseBehaviour};
+use kanata_keyberon::chord::{
+    ChordV2, ChordsForKey, ChordsForKeys, ReleaseBehaviour, MAX_CHORD_PARTICIPANTS,
+};
 use rustc_hash::{FxHashMap, FxHashSet};
 
 use std::fs;
@@ -203,6 +205,12 @@ fn parse_participating_keys(keys: &SExpr, s: &ParserState) -> Result<Vec<u16>> {
         .ok_or_else(|| anyhow_expr!(keys, "The first chord item must be a list of keys."))??;
     if participants.len() < 2 {
         bail_expr!(keys, "The minimum number of participating chord keys is 2");
+    }
+    if participants.len() > MAX_CHORD_PARTICIPANTS {
+        bail_expr!(
+            keys,
+            "The maximum number of participating chord keys is {MAX_CHORD_PARTICIPANTS}"
+        );
     }
     participants.sort();
     Ok(participants)
